@@ -41,6 +41,13 @@ TOL = 1e-9
 EPS = float(np.finfo(float).eps)
 C_COND = 30.0
 COND_MAX = 1e10
+# Mixed / narrow sample dtypes: a setup whose stacked block is float32, int16 or uint16 is processed by scipy.signal.csd in single
+# precision (complex64 spectra), and a float32 block is detrended in float32.  Such cases ("single") are judged against the
+# float64 image of the same sample values at max(TOLS, C_COND * EPS32 * cond).  Calibration on the unchanged tree (3092 lines,
+# dtypes drawn per block from DTYPES): worst deviation 3.6e-6 of max|S| -> 55x margin.
+EPS32 = float(np.finfo(np.float32).eps)
+TOLS = 2e-4
+DTYPES = ["float64", "float32", "int16", "int32", "int64", "uint16"]
 MASK62 = (1 << 62) - 1
 
 
@@ -70,6 +77,14 @@ def build_datasets(case):
         datasets = [make_recording(case["seed"] + 7919 * (k + 1), case["Ns"][k], len(ch)) for k, ch in enumerate(case["chan"])]
     for z in case.get("zero", []):  # malformed stream: a dead reference channel
         datasets[z[0]][:, case["ref_ind"][z[0]][z[1]]] = 0.0
+    dd = case.get("ds_dtypes")
+    if dd:  # one dtype per data set (MultiSetup_PreGER takes one array per setup); the reference records stay identical real values
+        if any(_is_int(d) for d in dd):
+            off = 10000.0 if "uint16" in dd else 0.0
+            datasets = [np.rint(100.0 * d) + off for d in datasets]
+        elif "float32" in dd:
+            datasets = [d.astype(np.float32).astype(np.float64) for d in datasets]
+        datasets = [np.ascontiguousarray(d.astype(t)) for d, t in zip(datasets, dd)]
     return datasets, case["ref_ind"]
 
 
@@ -81,6 +96,51 @@ def split_setups(datasets, ref_ind):
         mi = [c for c in range(d.shape[1]) if c not in ri]
         Y.append({"ref": np.ascontiguousarray(d[:, ri].T), "mov": np.ascontiguousarray(d[:, mi].T)})
     return Y
+
+
+def _is_int(d):
+    return np.issubdtype(np.dtype(d), np.integer)
+
+
+def typed_setups(Y, dtypes):
+    """Per-block sample dtypes: dtypes[k] = (dtype of 'ref', dtype of 'mov') of setup k.  Integral blocks hold integer-valued counts
+    (round(100 x), +10000 for uint16), float blocks non-integer samples (so a cast to an integer type is visible).  The reference
+    records stay the SAME real values in every setup (the premise of the property): if any setup logs them as integers they are
+    integer-valued everywhere, else if any logs them as float32 they are float32-representable everywhere."""
+    refd = [d[0] for d in dtypes]
+    anyint, anyu, any32 = any(_is_int(d) for d in refd), any(d == "uint16" for d in refd), any(d == "float32" for d in refd)
+    out = []
+    for y, (dr, dm) in zip(Y, dtypes):
+        r = y["ref"]
+        if anyint:
+            r = np.rint(100.0 * r) + (10000.0 if anyu else 0.0)
+        elif any32:
+            r = r.astype(np.float32).astype(np.float64)
+        m = y["mov"]
+        if _is_int(dm):
+            m = np.rint(100.0 * m) + (10000.0 if dm == "uint16" else 0.0)
+        out.append({"ref": np.ascontiguousarray(r.astype(dr)), "mov": np.ascontiguousarray(m.astype(dm))})
+    return out
+
+
+def f64(Y):
+    return [{"ref": y["ref"].astype(np.float64), "mov": y["mov"].astype(np.float64)} for y in Y]
+
+
+def hand_over(Y, readonly):
+    """Fresh copies for the implementation, optionally read-only (the library never writes to its inputs)."""
+    out = []
+    for y in Y:
+        d = {"ref": y["ref"].copy(), "mov": y["mov"].copy()}
+        if readonly:
+            d["ref"].setflags(write=False)
+            d["mov"].setflags(write=False)
+        out.append(d)
+    return out
+
+
+def same_inputs(A, B):
+    return all(a[k].dtype == b[k].dtype and a[k].shape == b[k].shape and np.array_equal(a[k], b[k]) for a, b in zip(A, B) for k in ("ref", "mov"))
 
 
 def ref_estimator(X, Yr, fs, nxseg, method, pov):
@@ -154,7 +214,9 @@ def close(A, B, scale, tol=TOL):
     return A.shape == B.shape and bool(np.all(np.abs(A - B) <= tol * scale + 1e-300))
 
 
-def cond_tol(cond):
+def cond_tol(cond, single=False):
+    if single:
+        return np.maximum(TOLS, C_COND * EPS32 * np.asarray(cond, float))
     return np.maximum(TOL, C_COND * EPS * np.asarray(cond, float))
 
 
@@ -168,6 +230,14 @@ def run_case(ctx, case, pend, lines_cap):
     method, nxseg, pov, fs = case["method"], case["nxseg"], case["pov"], case["fs"]
     datasets, ref_ind = build_datasets(case)
     Y = split_setups(datasets, ref_ind)
+    if case.get("dtypes"):
+        Y = typed_setups(Y, case["dtypes"])
+        for dr, dm in case["dtypes"]:
+            ctx.hist("block dtypes (ref, mov)", (dr, dm))
+            ctx.hist("ref narrower than mov", bool(np.dtype(dr) != np.result_type(np.dtype(dr), np.dtype(dm))))
+    Y64 = f64(Y)  # the float64 image of the same sample values: what the single-setup matrix is taken of
+    readonly = bool(case.get("readonly"))
+    ctx.hist("inputs read-only", readonly)
     nr = len(ref_ind[0])
     nset = len(Y)
     nms = [y["mov"].shape[0] for y in Y]
@@ -182,14 +252,18 @@ def run_case(ctx, case, pend, lines_cap):
 
     # ---- implementation
     err = None
+    Yin = hand_over(Y, readonly)
     try:
-        freq, Sy = fdd.SD_PreGER([dict(ref=y["ref"].copy(), mov=y["mov"].copy()) for y in Y], fs, nxseg, pov, method)
+        freq, Sy = fdd.SD_PreGER(Yin, fs, nxseg, pov, method)
         Sy = np.asarray(Sy)
     except np.linalg.LinAlgError:
         err = "LinAlgError"
     except Exception as ex:  # any other exception on a valid measurement is a failing input
-        ctx.fail("oracle", "SD_PreGER raised %s: %s (%s)" % (type(ex).__name__, str(ex)[:200], tag), case, key="C04:SD_PreGER:raises")
+        ctx.fail("oracle", "SD_PreGER raised %s: %s (%s%s)" % (type(ex).__name__, str(ex)[:200], tag, ", read-only input arrays" if readonly else ""),
+                 case, key="C04:SD_PreGER:raises")
         return
+    if not same_inputs(Yin, Y):
+        ctx.fail("oracle", "SD_PreGER modified its input records (%s)" % tag, case, key="C04:SD_PreGER:mutates-input")
     # ---- harness's own per-setup spectra (witnesses): SD_est on [ref; mov] against ref, as SD_PreGER consumes them
     G_all, F_all = [], []
     for y in Y:
@@ -197,6 +271,13 @@ def run_case(ctx, case, pend, lines_cap):
         G_all.append(np.asarray(S))
         F_all.append(np.asarray(f_w))
     nf = G_all[0].shape[2]
+    # precision class of the case (see TOLS): single when SciPy works in single precision on some block
+    single = any(S.dtype == np.complex64 for S in G_all) or any(y[b].dtype == np.float32 for y in Y for b in ("ref", "mov"))
+    G_all = [S.astype(np.complex128) for S in G_all]
+    if not err and np.iscomplexobj(Sy):
+        Sy = Sy.astype(np.complex128)
+    btol = TOLS if single else TOL
+    ctx.hist("precision class", "single" if single else "double")
 
     if malformed:
         # singular reference block: the model says LinAlgError; the property does not name the exception -> note only
@@ -239,7 +320,7 @@ def run_case(ctx, case, pend, lines_cap):
         cond = np.maximum(cond, np.where(np.isfinite(c), c, np.inf))
     judged = cond <= COND_MAX
     ctx.not_judged += int(np.sum(~judged))
-    tolr = cond_tol(np.where(judged, cond, 1.0))  # per-line relative tolerance, scaled by the measured conditioning
+    tolr = cond_tol(np.where(judged, cond, 1.0), single)  # per-line relative tolerance, scaled by the measured conditioning
     ctx.hist("log10 cond(Grr) of judged lines", "<=4" if not np.any(judged) or cond[judged].max() <= 1e4 else "%d" % int(np.ceil(np.log10(cond[judged].max()))))
 
     # ---- property text, general part: reference block = mean, roving block = transmissibility . mean
@@ -252,16 +333,16 @@ def run_case(ctx, case, pend, lines_cap):
     lscale = np.maximum(np.abs(expect).max(axis=(0, 1)), 1e-6 * gscale)
     for k in range(nf):
         if judged[k] and not close(Sy[:, :, k], expect[:, :, k], lscale[k], tolr[k]):
-            blk = "reference block" if not close(Sy[:nr, :, k], expect[:nr, :, k], lscale[k]) else "roving blocks"
+            blk = "reference block" if not close(Sy[:nr, :, k], expect[:nr, :, k], lscale[k], btol) else "roving blocks"
             ctx.fail("oracle", "SD_PreGER %s differ from mean / transmissibility.mean of the per-setup spectra at line %d (%s): max dev %.3g of scale %.3g"
                      % (blk, k, tag, np.abs(Sy[:, :, k] - expect[:, :, k]).max(), lscale[k]), case, key="C04:SD_PreGER:general-%s" % blk.split()[0])
             break
 
     # ---- property text, first sentence: one simultaneous recording => single-setup cross-spectral matrix
     if case["kind"] == "sim":
-        allrec = np.vstack([Y[0]["ref"]] + [y["mov"] for y in Y])
-        for which, est in (("SD_est", lambda: fdd.SD_est(allrec, Y[0]["ref"], 1.0 / fs, nxseg, method, pov)),
-                           ("SciPy reference estimator", lambda: ref_estimator(allrec, Y[0]["ref"], fs, nxseg, method, pov))):
+        allrec = np.vstack([Y64[0]["ref"]] + [y["mov"] for y in Y64])
+        for which, est in (("SD_est", lambda: fdd.SD_est(allrec, Y64[0]["ref"], 1.0 / fs, nxseg, method, pov)),
+                           ("SciPy reference estimator", lambda: ref_estimator(allrec, Y64[0]["ref"], fs, nxseg, method, pov))):
             f1, S1 = est()
             S1 = np.asarray(S1)
             if S1.shape != Sy.shape or np.shape(f1) != freq.shape or not np.allclose(f1, freq, rtol=0, atol=ftol):
@@ -286,7 +367,7 @@ def run_case(ctx, case, pend, lines_cap):
                 D, D1 = Sy[nr:, 1, :] - Sy[nr:, 0, :], S1[nr:, 1, :] - S1[nr:, 0, :]
                 dsc = np.abs(D1).max(axis=0)
                 dev = np.abs(D - D1).max(axis=0)
-                badd = [k for k in range(nf) if judged[k] and dev[k] > tolr[k] * dsc[k] + 16 * EPS * sc[k]]
+                badd = [k for k in range(nf) if judged[k] and dev[k] > tolr[k] * dsc[k] + (TOLS if single else 16 * EPS) * sc[k]]
                 if badd:
                     k = badd[0]
                     ctx.fail("oracle", "simultaneous recording: the difference of the two reference columns of the roving blocks differs from that of the "
@@ -299,9 +380,14 @@ def run_case(ctx, case, pend, lines_cap):
 
     # ---- property text, last sentence: a per-setup gain changes nothing but the mean reference block
     gi, g = case["gain"]["i"], case["gain"]["g"]
-    Yg = [dict(ref=y["ref"] * (g if k == gi else 1.0), mov=y["mov"] * (g if k == gi else 1.0)) for k, y in enumerate(Y)]
+    if case.get("dtypes"):  # the gain keeps every block in its dtype (integer gain, counts stay in range)
+        Yg = [dict(ref=(y["ref"] * (g if k == gi else 1.0)).astype(y["ref"].dtype), mov=(y["mov"] * (g if k == gi else 1.0)).astype(y["mov"].dtype))
+              for k, y in enumerate(Y)]
+    else:
+        Yg = [dict(ref=y["ref"] * (g if k == gi else 1.0), mov=y["mov"] * (g if k == gi else 1.0)) for k, y in enumerate(Y)]
     try:
-        fg, Sg = fdd.SD_PreGER(Yg, fs, nxseg, pov, method)
+        fg, Sg = fdd.SD_PreGER(hand_over(Yg, readonly), fs, nxseg, pov, method)
+        Sg = np.asarray(Sg).astype(np.complex128)
     except Exception:
         fg, Sg = None, None
     if Sg is None or np.shape(Sg) != Sy.shape or np.shape(fg) != freq.shape or not np.allclose(fg, freq, rtol=0, atol=ftol):
@@ -313,12 +399,12 @@ def run_case(ctx, case, pend, lines_cap):
             M = Sy[:nr, :, k]
             Mg_expect = M + (g * g - 1.0) / nset * G_all[gi][:nr, :, k]
             cM = max(np.linalg.cond(M), np.linalg.cond(Mg_expect))
-            ok_ref = close(Sg[:nr, :, k], Mg_expect, max(np.abs(Mg_expect).max(), 1e-6 * gscale))
+            ok_ref = close(Sg[:nr, :, k], Mg_expect, max(np.abs(Mg_expect).max(), 1e-6 * gscale), btol)
             ok_T = True
             if cM <= 1e4:
                 T0 = np.linalg.solve(M.T, Sy[nr:, :, k].T).T
                 T1 = np.linalg.solve(Sg[:nr, :, k].T, Sg[nr:, :, k].T).T
-                ok_T = close(T1, T0, max(np.abs(T0).max(), 1e-12) * cM)
+                ok_T = close(T1, T0, max(np.abs(T0).max(), 1e-12) * cM, btol)
             if not (ok_ref and ok_T):
                 ctx.fail("oracle", "multiplying setup %d by %s: %s (line %d, %s)" % (
                     gi, g, "mean reference block is not mean + (g^2-1)/n Grr(i)" if not ok_ref else
@@ -330,7 +416,7 @@ def run_case(ctx, case, pend, lines_cap):
     a, b = rows % (nr + nms[0]), (nr - 1)
     Ya = np.vstack([Y[0]["ref"], Y[0]["mov"]])
     _, s_ab = fdd.SD_est(Ya[a:a + 1], Y[0]["ref"][b:b + 1], 1.0 / fs, nxseg, method, pov)
-    if not np.allclose(np.asarray(s_ab)[0, 0], G_all[0][a, b], rtol=1e-9, atol=1e-12 * gscale):
+    if not np.allclose(np.asarray(s_ab)[0, 0], G_all[0][a, b], rtol=10 * btol, atol=(1e-3 if single else 1e-12) * gscale):
         ctx.fail("oracle", "SD_est entry (a,b) is not a function of channel a and reference b alone (%s)" % tag, case, key="C04:SD_est:entry-locality")
 
     # ---- correspondence with the Coq model, line by line
@@ -425,6 +511,7 @@ def gen_case(ctx, kind, method, nxseg, pov, force=None):
     N = nxseg * nseg + rng.randint(0, nxseg - 1)
     case = dict(kind=kind, method=method, nxseg=nxseg, pov=pov, fs=rng.choice([1.0, 10.0, 128.0, 200.0]), seed=rng.randrange(1 << 30),
                 nch=nch, chan=chan, ref_ind=ref_ind, gain=dict(i=rng.randrange(nset), g=rng.choice([0.5, 2.0, 3.0, 0.25, 1.5])))
+    case["readonly"] = rng.random() < 0.35  # input arrays handed over read-only (the library never writes to its inputs)
     if kind == "sim":
         case["N"] = N
     else:
@@ -440,8 +527,23 @@ def class_level(ctx, case):
 
     datasets, ref_ind = build_datasets(case)
     Y = split_setups(datasets, ref_ind)
+    Y64 = f64(Y)
     fs = case["fs"]
-    ms = MultiSetup_PreGER(fs=fs, ref_ind=[list(r) for r in ref_ind], datasets=[d.copy() for d in datasets])
+    readonly = bool(case.get("readonly"))
+    dsin = [d.copy() for d in datasets]
+    if readonly:
+        for d in dsin:
+            d.setflags(write=False)
+    sgl = any(str(d.dtype) in ("float32", "int16", "uint16") for d in datasets)  # SciPy then works in single precision (see TOLS)
+    ctx.hist("class level: data set dtypes", tuple(str(d.dtype) for d in datasets))
+    ctx.hist("class level: inputs read-only", readonly)
+    try:
+        ms = MultiSetup_PreGER(fs=fs, ref_ind=[list(r) for r in ref_ind], datasets=dsin)
+    except Exception as ex:
+        ctx.count(case)
+        ctx.fail("oracle", "MultiSetup_PreGER(...) raised %s: %s (data set dtypes %s%s)" % (type(ex).__name__, str(ex)[:200], [str(d.dtype) for d in datasets],
+                 ", read-only arrays" if readonly else ""), case, key="C04:MultiSetup_PreGER:raises")
+        return
     algs = []
     for (cls, name), (nxseg, method, pov) in zip(((FDD_MS, "fdd"), (EFDD_MS, "efdd"), (pLSCF_MS, "plscf")), case["params"]):
         kw = dict(name=name, nxseg=nxseg, method_SD=method, pov=pov)
@@ -453,10 +555,12 @@ def class_level(ctx, case):
         ms.run_all()
     except Exception as ex:
         ctx.count(case)
-        ctx.fail("oracle", "MultiSetup_PreGER.run_all raised %s: %s with run parameters %s" % (type(ex).__name__, str(ex)[:200], case["params"]), case,
-                 key="C04:run_all:raises")
+        ctx.fail("oracle", "MultiSetup_PreGER.run_all raised %s: %s with run parameters %s%s" % (type(ex).__name__, str(ex)[:200], case["params"],
+                 ", read-only data sets" if readonly else ""), case, key="C04:run_all:raises")
         return
-    allrec = np.vstack([Y[0]["ref"]] + [y["mov"] for y in Y])
+    if not all(a.dtype == b.dtype and np.array_equal(a, b) for a, b in zip(dsin, datasets)):
+        ctx.fail("oracle", "MultiSetup_PreGER / run_all modified the data sets handed over", case, key="C04:run_all:mutates-input")
+    allrec = np.vstack([Y64[0]["ref"]] + [y["mov"] for y in Y64])
     nr = len(ref_ind[0])
     # the single-setup classes on the same simultaneous recording (all sensors: references, then roving in setup order)
     from pyoma2.algorithms import EFDD, FDD, pLSCF
@@ -485,7 +589,7 @@ def class_level(ctx, case):
         ctx.count(c)
         ctx.hist("class level", (cls.__name__, method, nxseg, pov))
         f0, S0 = fdd.SD_PreGER(Y, fs, nxseg, pov, method)
-        f1, S1 = ref_estimator(allrec, Y[0]["ref"], fs, nxseg, method, pov)
+        f1, S1 = ref_estimator(allrec, Y64[0]["ref"], fs, nxseg, method, pov)
         fr, Sr = np.asarray(alg.result.freq), np.asarray(alg.result.Sy)
         tag = "%s nxseg=%d method_SD=%s pov=%s" % (cls.__name__, nxseg, method, pov)
         ftol = 1e-12 * fs
@@ -510,7 +614,7 @@ def class_level(ctx, case):
                 cc = np.linalg.cond(np.moveaxis(S1c[:nr, :, :], 2, 0))
                 okc = cc <= COND_MAX
                 devc = np.abs(Sr - S1c).max(axis=(0, 1))
-                if np.any(devc[okc] > cond_tol(cc[okc]) * scc[okc]):
+                if np.any(devc[okc] > cond_tol(cc[okc], sgl) * scc[okc]):
                     ctx.fail("oracle", "%s: result.Sy differs from the reference columns of result.Sy of %s on the same simultaneous recording "
                              "(max dev %.3g of scale %.3g)" % (tag, type(single[cls.__name__]).__name__, devc[okc].max(), scc.max()), c,
                              key="C04:%s:single-setup-class" % cls.__name__)
@@ -521,11 +625,11 @@ def class_level(ctx, case):
         cond = np.linalg.cond(np.moveaxis(S1[:S1.shape[1], :, :], 2, 0))
         ok = cond <= COND_MAX
         dev = np.abs(Sr - S1).max(axis=(0, 1))
-        if np.any(dev[ok] > cond_tol(cond[ok]) * sc[ok]):
+        if np.any(dev[ok] > cond_tol(cond[ok], sgl) * sc[ok]):
             ctx.fail("oracle", "%s through MultiSetup_PreGER.run_all: result.Sy is not the single-setup cross-spectral matrix of the simultaneous "
                      "recording for the class's run parameters (max dev %.3g of scale %.3g)" % (tag, dev[ok].max(), sc.max()), c,
                      key="C04:%s:single-setup" % cls.__name__)
-        if np.shape(S0) != Sr.shape or not np.allclose(Sr, S0, rtol=1e-12, atol=1e-15 * float(np.abs(S1).max())) or np.shape(f0) != fr.shape or not np.allclose(fr, f0, rtol=0, atol=ftol):
+        if np.shape(S0) != Sr.shape or not np.allclose(Sr, S0, rtol=1e-5 if sgl else 1e-12, atol=(1e-6 if sgl else 1e-15) * float(np.abs(S1).max())) or np.shape(f0) != fr.shape or not np.allclose(fr, f0, rtol=0, atol=ftol):
             ctx.fail("correspondence", "%s: result.{freq,Sy} differ from fdd.SD_PreGER(data, fs, nxseg, pov, method_SD) of the run parameters" % tag, c,
                      key="C04:%s:glue" % cls.__name__)
 
@@ -544,6 +648,9 @@ def run(ctx):
         "spectra of a line are multiplied by a power of two to integers (C04_homogeneous)",
         "float comparisons through inv(Grr) use the relative tolerance max(1e-9, 30*eps*cond(Grr)) per line (calibrated: unchanged tree <= 0.8*eps*cond "
         "over 4072 nearly-collinear lines); lines with cond > 1e10 are not judged; counted under not_judged",
+        "mixed sample dtypes: merged matrix judged against the single-setup matrix of the float64 image of the same values; where SciPy works in "
+        "single precision (float32 / int16 / uint16 blocks -> complex64 spectra, float32 detrend) the tolerance is max(2e-4, 30*eps32*cond) "
+        "(unchanged tree: <= 3.6e-6 over 3092 lines)",
     ]
     pend = Pending()
     tm = ctx.extra.setdefault("timing_s", {})
@@ -604,6 +711,24 @@ def run(ctx):
         case["collinear"] = epsc
         ctx.hist("collinear references eps", epsc)
         run_case(ctx, case, pend, 7 if quick else 12)
+    # per-block sample dtypes: each setup's 'ref' and 'mov' block independently from DTYPES (a reference station logged as integer counts
+    # beside float roving sensors, ...); merged == single-setup matrix of the float64 image of the same values
+    forced = [[("int32", "float64"), ("uint16", "float64")], [("float64", "int16"), ("int16", "float32")], [("float32", "float64"), ("int64", "float64")],
+              [("uint16", "float32"), ("int32", "int64")]]
+    ndt = ctx.n(14, 60)
+    for j in range(ndt):
+        kind = "sim" if j % 3 else "gen"
+        case = gen_case(ctx, kind, "per" if j % 2 else "cor", [16, 32, 33, 64][j % 4] if quick else ctx.rng.choice([16, 33, 64, 128, 375]), povs[(j // 2) % 4],
+                        dict(nr=1 + j % 3, nch=ctx.rng.randint(4, 9)) if j % 2 else None)
+        nset = len(case["chan"])
+        dts = [(ctx.rng.choice(DTYPES), ctx.rng.choice(DTYPES)) for _ in range(nset)]
+        if j < len(forced):
+            dts[:2] = forced[j]
+        elif j % 2 == 0:  # every second case: at least one setup whose references are narrower than its roving sensors
+            dts[ctx.rng.randrange(nset)] = (ctx.rng.choice(["int16", "int32", "uint16", "int64"]), ctx.rng.choice(["float64", "float32"]))
+        case["dtypes"] = [list(d) for d in dts]
+        case["gain"]["g"] = ctx.rng.choice([2.0, 3.0])
+        run_case(ctx, case, pend, 5 if quick else 9)
     # malformed stream (~15 %): dead or duplicated reference channel -> exactly singular reference block
     nmal = max(4, int(0.15 * ctx.evaluations))
     for j in range(nmal):
@@ -639,6 +764,9 @@ def run(ctx):
         case["level"] = "class"
         if j % 3 == 1:
             case["collinear"] = [1e-3, 1e-4, 3e-5][(j // 3) % 3]
+        case["readonly"] = bool(j % 2)
+        if j % 3 == 2:  # one dtype per data set, drawn independently (integer counts / float32 loggers beside float64)
+            case["ds_dtypes"] = [ctx.rng.choice(DTYPES) for _ in case["chan"]]
         class_level(ctx, case)
     tm["class level"] = round(time.time() - t0, 2)
 
